@@ -106,6 +106,16 @@ DEFAULT_PORTS = {
 }
 
 
+def authority_host(host: bytes) -> bytes:
+    """
+    The host as it appears in a URL authority, a `Host` header or a CONNECT
+    target: IPv6 literals are enclosed in square brackets (RFC 3986, 3.2.2).
+    """
+    if b":" in host and not host.startswith(b"["):
+        return b"[" + host + b"]"
+    return host
+
+
 def include_request_headers(
     headers: list[tuple[bytes, bytes]],
     *,
@@ -117,9 +127,9 @@ def include_request_headers(
     if b"host" not in headers_set:
         default_port = DEFAULT_PORTS.get(url.scheme)
         if url.port is None or url.port == default_port:
-            header_value = url.host
+            header_value = authority_host(url.host)
         else:
-            header_value = b"%b:%d" % (url.host, url.port)
+            header_value = b"%b:%d" % (authority_host(url.host), url.port)
         headers = [(b"Host", header_value)] + headers
 
     if (
@@ -302,9 +312,10 @@ class URL:
         )
 
     def __bytes__(self) -> bytes:
+        host = authority_host(self.host)
         if self.port is None:
-            return b"%b://%b%b" % (self.scheme, self.host, self.target)
-        return b"%b://%b:%d%b" % (self.scheme, self.host, self.port, self.target)
+            return b"%b://%b%b" % (self.scheme, host, self.target)
+        return b"%b://%b:%d%b" % (self.scheme, host, self.port, self.target)
 
     def __repr__(self) -> str:
         return (
